@@ -8,6 +8,8 @@ import Crv.Driver.Path
 import Crv.Driver.Sched
 import Crv.Driver.Lock
 import Crv.Driver.Disk
+import Crv.Driver.Pem
+import Crv.Driver.Chunk
 open Crv.Driver
 
 /-- One model state per stream kind (DESIGN.md Appendix A). -/
@@ -21,6 +23,7 @@ structure DriverState where
   sched : Sched.State := Sched.init
   lock : Lock.State := Lock.init
   disk : Disk.State := Disk.init
+  chunk : Chunk.State := Chunk.init
 
 def stepLine (st : DriverState) (line : String) : DriverState × String :=
   match words line with
@@ -34,6 +37,8 @@ def stepLine (st : DriverState) (line : String) : DriverState × String :=
   | "sched" :: rest => let (s', out) := Sched.step st.sched rest; ({ st with sched := s' }, out)
   | "lock" :: rest => let (s', out) := Lock.step st.lock rest; ({ st with lock := s' }, out)
   | "disk" :: rest => let (s', out) := Disk.step st.disk rest; ({ st with disk := s' }, out)
+  | "pem" :: rest => (st, stepPem rest)
+  | "chunk" :: rest => let (s', out) := Chunk.step st.chunk rest; ({ st with chunk := s' }, out)
   | _ => (st, "bad-op")
 
 partial def loop (h : IO.FS.Stream) (out : IO.FS.Stream) (st : DriverState) : IO Unit := do
